@@ -25,7 +25,11 @@ RULE = ("Hypothesis-drawn schedules for 2-4 (thorough: 2-8) logical processes sh
         "reference (bgzip-compressed or plain; no index / .fai only / both / both outdated next to it) through "
         "open_indexed_fasta and the workers' direct Fasta(): switches at every open/read/write/close/rename of "
         "<reference>.fai/.gzi; every process must read the true sequences; non-trivial = an index file was opened "
-        "while another process was writing one. The smoke stage starts 2-6 real `isoquant.py` processes together and compares each result "
+        "while another process was writing one. Stage mapper_cache runs the real index/alignment cache logic of "
+        "src/read_mapper.py for 2-4 (2-8) logical processes with generated options (data type, aligner, --stranded, "
+        "reads, reference, junction file) and 0-2 finished earlier runs, around stand-ins for the two external "
+        "conversions that record the options they ran under: what a run uses must have been made under its own "
+        "options; non-trivial = a run used a file made by another run. The smoke stage starts 2-6 real `isoquant.py` processes together and compares each result "
         "with a solo run.")
 ASSUMPTIONS = ["the channels between concurrent runs are the files under $HOME/.config/IsoQuant and the index files "
                "(.fai, .gzi) next to a shared reference",
@@ -519,6 +523,205 @@ def eval_index_schedule(case, ctx):
         shutil.rmtree(d, ignore_errors=True)
 
 
+# --------------------------------------------------------------------------- caches of indices and alignments
+
+@st.composite
+def mapper_cases(draw, max_n=4):
+    n = draw(st.integers(2, max_n))
+    procs = []
+    for i in range(n):
+        procs.append({"data_type": draw(st.sampled_from(["nanopore", "pacbio_ccs", "assembly"])),
+                      "aligner": draw(st.sampled_from([None, None, "minimap2", "starlong"])),
+                      "stranded": draw(st.sampled_from(["none", "none", "forward"])),
+                      "fastq": draw(st.integers(0, 1)), "junc_bed": draw(st.sampled_from([None, None, 0, 1])),
+                      "reference": draw(st.integers(0, 1) if draw(st.booleans()) else st.just(0))})
+    return {"n": n, "procs": procs, "schedule": draw(st.lists(st.integers(0, max_n - 1), max_size=80)),
+            "flush_each": draw(st.booleans()),
+            # runs that finished before the concurrent ones start (they fill the caches); indices into procs
+            "history": draw(st.lists(st.integers(0, n - 1), max_size=2))}
+
+
+def eval_mapper(case, ctx):
+    """The real cache logic of src/read_mapper.py (DataSetReadMapper.create_index / map_reads, find_stored_* /
+    store_*) around stand-ins for the two external conversions (indexing, alignment) that record under which options
+    they ran: what a run ends up using must have been made under its own options."""
+    isoquant, g, rm = mods()
+    from src.input_data_storage import SampleData
+    d = ctx.scratch()
+    n = case["n"]
+    real_open = open
+    real_replace = os.replace
+    tid_of = {}
+    try:
+        ind = os.path.join(d, "in")
+        os.makedirs(ind)
+        for k in (0, 1):
+            for name in ("ref%d.fa" % k, "reads%d.fq" % k, "junc%d.bed" % k):
+                with real_open(os.path.join(ind, name), "w") as f:
+                    f.write("x\n")
+        home = os.path.join(d, "home")
+        os.makedirs(home)
+
+        def expected_tag(pr):
+            aligner = pr["aligner"] or rm.DATATYPE_TO_ALIGNER[pr["data_type"]]
+            tag = {"aligner": aligner, "fastq": "reads%d.fq" % pr["fastq"], "reference": "ref%d.fa" % pr["reference"],
+                   "annotation": None if pr["junc_bed"] is None else "junc%d.bed" % pr["junc_bed"],
+                   "k": rm.KMER_SIZE[pr["data_type"]]}
+            if aligner == "minimap2":
+                tag["preset"] = rm.MINIMAP_PRESET[pr["data_type"]]
+                tag["stranded"] = pr["stranded"] == "forward"
+            return tag
+
+        def fake_index_reference(aligner, args):
+            ref_name = os.path.splitext(os.path.basename(args.reference))[0]
+            index_name = os.path.join(os.path.abspath(args.output), "%s_k%s_idx" % (ref_name, rm.KMER_SIZE[args.data_type]))
+            tag = {"aligner": aligner, "k": rm.KMER_SIZE[args.data_type], "reference": os.path.basename(args.reference)}
+            if aligner == "starlong":
+                os.makedirs(index_name, exist_ok=True)
+                with real_open(os.path.join(index_name, "genomeParameters.txt"), "w") as f:
+                    json.dump(tag, f)
+            else:
+                with real_open(index_name, "w") as f:
+                    json.dump(tag, f)
+            return index_name
+
+        def fake_align_fasta(aligner, fastq_file, annotation_file, args, label, out_dir):
+            ip = os.path.join(args.index, "genomeParameters.txt") if os.path.isdir(args.index) else args.index
+            itag = json.load(real_open(ip))
+            tag = {"aligner": aligner, "fastq": os.path.basename(fastq_file), "reference": itag["reference"],
+                   "annotation": os.path.basename(annotation_file) if annotation_file else None, "k": itag["k"],
+                   "index_aligner": itag["aligner"]}
+            if aligner == "minimap2":
+                tag["preset"] = rm.MINIMAP_PRESET[args.data_type]
+                tag["stranded"] = args.stranded == "forward"
+            os.makedirs(out_dir, exist_ok=True)
+            bam = os.path.join(out_dir, "%s_%s.bam" % (label, os.path.basename(fastq_file)))
+            with real_open(bam, "w") as f:
+                json.dump(tag, f)
+            return bam
+
+        class Args:
+            pass
+
+        def one_run(pr, out):
+            args = Args()
+            os.makedirs(out, exist_ok=True)
+            args.output = out
+            args.reference = os.path.join(ind, "ref%d.fa" % pr["reference"])
+            args.data_type, args.aligner, args.stranded = pr["data_type"], pr["aligner"], pr["stranded"]
+            args.index, args.clean_start, args.threads = None, False, 1
+            args.no_junc_bed = pr["junc_bed"] is None
+            args.junc_bed_file = None if pr["junc_bed"] is None else os.path.join(ind, "junc%d.bed" % pr["junc_bed"])
+            args.genedb = args.junc_bed_file          # STAR takes the annotation itself
+            isoquant.set_configs_directory(args)
+            sample = SampleData([[os.path.join(ind, "reads%d.fq" % pr["fastq"])]], "OUT", os.path.join(out, "OUT"), {},
+                                None)
+
+            class Input:
+                samples = [sample]
+                input_type = "fastq"
+            args.input_data = Input()
+            mapper = rm.DataSetReadMapper(args)
+            args.index = mapper.index_fname
+            data = mapper.map_reads(args)
+            bam = data.samples[0].file_list[0][0]
+            return bam, json.load(real_open(bam))
+
+        sched = Sched(n, case["schedule"])
+        outcomes = [None] * n
+
+        def proxy_open(path, mode="r", *a, **kw):
+            tid = tid_of.get(threading.get_ident())
+            p = str(path)
+            if tid is None or not p.endswith(".json"):
+                return real_open(path, mode, *a, **kw)
+            sched.yield_(tid, "open:%s:%s" % (mode, os.path.basename(p)))
+            return FileProxy(real_open(path, mode, *a, **kw), sched, tid, p, mode, case["flush_each"])
+
+        def replace_hook(src, dst, *a, **kw):
+            tid = tid_of.get(threading.get_ident())
+            if tid is not None and str(dst).endswith(".json"):
+                sched.yield_(tid, "replace:" + os.path.basename(str(dst)))
+            return real_replace(src, dst, *a, **kw)
+
+        def body(i):
+            tid_of[threading.get_ident()] = i
+            try:
+                sched.wait_turn(i)
+                bam, tag = one_run(case["procs"][i], os.path.join(d, "out_%d" % i))
+                outcomes[i] = {"ok": True, "bam": bam, "tag": tag}
+            except Abort:
+                outcomes[i] = {"ok": False, "error": "Abort", "msg": ""}
+            except BaseException as e:
+                outcomes[i] = {"ok": False, "error": type(e).__name__, "msg": str(e)[:200]}
+            finally:
+                sched.finish(i)
+
+        old_env = os.environ.get("HOME")
+        os.environ["HOME"] = home
+        saved = (rm.index_reference, rm.align_fasta, getattr(rm, "open", None), getattr(g, "open", None),
+                 getattr(isoquant, "open", None))
+        rm.index_reference, rm.align_fasta = fake_index_reference, fake_align_fasta
+        rm.open = g.open = isoquant.open = proxy_open
+        os.replace = replace_hook
+        import logging
+        logging.getLogger("IsoQuant").setLevel(logging.CRITICAL)
+        try:
+            for j, i in enumerate(case["history"]):
+                try:
+                    one_run(case["procs"][i], os.path.join(d, "hist_%d" % j))
+                except BaseException:
+                    pass
+            threads = [threading.Thread(target=body, args=(i,), daemon=True) for i in range(n)]
+            for t in threads:
+                t.start()
+            sched.start_all()
+            for t in threads:
+                t.join(timeout=120)
+            if any(t.is_alive() for t in threads):
+                sched.dead = True
+                with sched.cv:
+                    sched.cv.notify_all()
+                ctx.harness_errors.append("mapper schedule harness: thread did not finish")
+        finally:
+            rm.index_reference, rm.align_fasta = saved[0], saved[1]
+            for m, o in zip((rm, g, isoquant), saved[2:]):
+                if o is None:
+                    try:
+                        del m.open
+                    except AttributeError:
+                        pass
+                else:
+                    m.open = o
+            os.replace = real_replace
+            if old_env is not None:
+                os.environ["HOME"] = old_env
+        shared = False
+        for i, o in enumerate(outcomes):
+            if o is None or o.get("error") == "Abort":
+                continue
+            pr = case["procs"][i]
+            if not o["ok"]:
+                ctx.violation("C20:mapper-cache:concurrent-run-fails:" + o["error"], {"process": i, "options": pr,
+                                                                                      "msg": o["msg"]}, case)
+                continue
+            own = os.path.abspath(o["bam"]).startswith(os.path.join(d, "out_%d" % i) + os.sep)
+            shared = shared or not own
+            exp = expected_tag(pr)
+            got = {k: o["tag"].get(k) for k in exp}
+            if got != exp or o["tag"].get("index_aligner") != exp["aligner"]:
+                what = sorted(k for k in exp if got.get(k) != exp[k]) or ["index_aligner"]
+                ctx.violation("C20:mapper-cache:run-uses-a-conversion-made-under-other-options:" + "+".join(what),
+                              {"process": i, "options": pr, "uses": o["bam"].replace(d, ""), "made_with": o["tag"],
+                               "own_options_give": exp}, case)
+        ctx.cls("mapper:n=%d" % n, "mapper:cache_hit" if shared else "mapper:no_cache_hit")
+        if shared:
+            ctx.mark_nontrivial(case_hash(case))
+            ctx.sample({"procs": case["procs"], "history": case["history"]}, limit=2)
+    finally:
+        shutil.rmtree(d, ignore_errors=True)
+
+
 # ------------------------------------------------------------------------------------------------ real processes
 
 @st.composite
@@ -594,4 +797,6 @@ def stages(tier):
                   strategy=(lambda: schedules(4)) if q else (lambda: schedules(8))),
             Stage("reference_index", "hyp", eval_index_schedule, n=800 if q else 40000,
                   strategy=(lambda: index_schedules(4)) if q else (lambda: index_schedules(8))),
+            Stage("mapper_cache", "hyp", eval_mapper, n=800 if q else 40000,
+                  strategy=(lambda: mapper_cases(4)) if q else (lambda: mapper_cases(8))),
             Stage("smoke", "hyp", eval_smoke, n=8 if q else 64, strategy=smoke_cases, shards=4)]
